@@ -12,7 +12,7 @@ import collections, concurrent.futures, json, os, re, shutil, subprocess, time
 import vlib
 
 SPEC_FILES = ("Geometry.tla", "Trace_Geometry.tla", "Trace_Geometry.cfg")
-PAR = {"quick": 6, "thorough": 8}          # concurrent single-worker TLC judges
+PAR = {"quick": 8, "thorough": 12}          # concurrent single-worker TLC judges
 
 
 def run(ctx):
@@ -31,6 +31,8 @@ def run(ctx):
     os.environ.setdefault("JAVA_TOOL_OPTIONS", "-XX:ParallelGCThreads=4 -Xss64m")
 
     # 1. design level: the oracle's own theorems for every layout of the enumerated space; write/read state machine
+    if getattr(ctx, "replay", None):
+        return replay(ctx, ctx.build_go("c02"))
     dev_skip_mc = bool(os.environ.get("VERIF_C02_DEV_SKIP_MC"))          # development aid only (mutation runs)
     if not dev_skip_mc:
         ctx.tlc_mc("MC_Geometry", "MC_Geometry.cfg", timeout=1500)
@@ -42,24 +44,37 @@ def run(ctx):
     # 2. implementation -> specification
     drv = ctx.build_go("c02")
     files = []
-    if os.environ.get("VERIF_C02_DEV_SKIP_BYTE"):        # development aid only (seed-independent part skipped)
-        pass
-    elif ctx.quick():
-        files += drive(ctx, drv, ["-mode", "byte", "-space", "3,4,5", "-all", "-out", ctx.path("bq")], chunk=1500)
+    dev_skip_enum = bool(os.environ.get("VERIF_C02_DEV_SKIP_BYTE"))   # development aid only: skips the seed-independent enumeration
+    if ctx.quick():
+        if not dev_skip_enum:
+            files += drive(ctx, drv, ["-mode", "byte", "-space", "3,4,5", "-all", "-out", ctx.path("bq")], chunk=1900)
         files += drive(ctx, drv, ["-mode", "byte", "-space", "4,6,7", "-sample", "2500", "-seed", str(ctx.seed),
                                   "-out", ctx.path("bs")], chunk=1300)
     else:
-        files += drive(ctx, drv, ["-mode", "byte", "-space", "4,6,7", "-all", "-out", ctx.path("ba")], chunk=6000, timeout=3000)
+        if not dev_skip_enum:
+            files += drive(ctx, drv, ["-mode", "byte", "-space", "4,6,7", "-all", "-out", ctx.path("ba")], chunk=6000, timeout=3000)
         # beyond the exhaustive space: seeded sample of longer layouts (<=5 files, lengths 0..8, piece length 1..9)
         files += drive(ctx, drv, ["-mode", "byte", "-space", "5,8,9", "-sample", "2000", "-seed", str(ctx.seed),
                                   "-out", ctx.path("bl")], chunk=500)
     files += drive(ctx, drv, ["-mode", "scaled", "-space", "4,6,7", "-sample", str(ctx.pick(240, 4000)),
-                              "-seed", str(ctx.seed), "-out", ctx.path("sc")], chunk=ctx.pick(120, 500))
+                              "-seed", str(ctx.seed), "-out", ctx.path("sc")], chunk=ctx.pick(240, 500))
     rtdir = ctx.path("rt", "x")
     files += drive(ctx, drv, ["-mode", "rt", "-dir", os.path.dirname(rtdir), "-n", str(ctx.pick(24, 300)),
                               "-seed", str(ctx.seed), "-out", ctx.path("rt0")], chunk=400, timeout=1800)
     files.append(binding_file(ctx, files))
     judge_all(ctx, files)
+
+
+def replay(ctx, drv):
+    """./check C02 --replay replays/C02-...json : run the recorded failing layouts against the current tree again."""
+    rep = json.load(open(ctx.replay))
+    lays = [ex["line"] for ex in rep["detail"]["examples"] if ex["line"].get("op") == "L"]
+    if not lays:
+        raise vlib.MachineryError("replay file holds no layout line (round-trip findings: rerun the tier with seed %s)" % rep.get("seed"))
+    p = ctx.path("replay_layouts.ndjson")
+    vlib.write_ndjson(p, [{k: l[k] for k in ("files", "pl", "unit", "sf", "mode")} for l in lays])
+    files = drive(ctx, drv, ["-layouts", p, "-out", ctx.path("rp")], chunk=1000)
+    judge_all(ctx, files, require_all_modes=False)
 
 
 # ---------------------------------------------------------------------------------------------- driver
@@ -125,7 +140,7 @@ def tlc_judge(ctx, k, path):
         shutil.copy(os.path.join(vlib.VERIF, "spec", f), d)
     shutil.copy(path, os.path.join(d, "trace.ndjson"))
     env = dict(os.environ)
-    env["JAVA_TOOL_OPTIONS"] = "-Xss64m -XX:ParallelGCThreads=2 -XX:CICompilerCount=2"
+    env["JAVA_TOOL_OPTIONS"] = "-Xss64m -Xmx3g -XX:ParallelGCThreads=2 -XX:CICompilerCount=2"
     cmd = ["tlc", "-workers", "1", "-metadir", os.path.join(d, "meta"), "-config", "Trace_Geometry.cfg", "Trace_Geometry.tla"]
     t = time.time()
     try:
@@ -149,7 +164,7 @@ def tlc_judge(ctx, k, path):
     return path, verdicts, dist, gen, time.time() - t
 
 
-def judge_all(ctx, files):
+def judge_all(ctx, files, require_all_modes=True):
     t0 = time.time()
     results = []
     with concurrent.futures.ThreadPoolExecutor(max_workers=PAR[ctx.tier]) as ex:
@@ -203,7 +218,7 @@ def judge_all(ctx, files):
         "downloader_done_without_any_message": allpad["done"],
         "note": "not an obligation of C02 (zero blocks cover exactly zero non-padding bytes); evidence for the liveness lead "
                 "'a piece consisting only of padding is never completed by the peer download path'"}
-    if stats["accepted"] == 0 or stats["rt"] == 0 or stats["scaled"] == 0:
+    if require_all_modes and (stats["accepted"] == 0 or stats["rt"] == 0 or stats["scaled"] == 0):
         raise vlib.MachineryError("vacuous run: %s" % dict(stats))
     for sig, a in agg.items():
         ex = a["examples"][0]
